@@ -1369,3 +1369,85 @@ Proof.
   rewrite (dup_equal_lemma E offu' offk' H1 H2 equal_flags fb fuel b Eb b' hb Hb Db Ehb).
   trivial.
 Qed.
+
+(* ================================================================== *)
+(* Required slices: a copy made by Dup owns its array                   *)
+(* ================================================================== *)
+
+Section RequiredSlices.
+  Variables (A0 : arrays) (next0 : nat) (so : gslice).
+  Hypothesis so_old : g_arr so < next0.
+
+  (* st / c: the store and the copy's slice at some point of a run of mutators on the copy *)
+  Definition owns (st : sstate) (c : gslice) : Prop :=
+    next0 <= ss_next st /\
+    alookup (g_arr so) (ss_arrays st) = alookup (g_arr so) A0 /\
+    (g_cap c = 0 \/ (next0 <= g_arr c /\ g_arr c < ss_next st)) /\
+    g_len c <= g_cap c.
+
+  Lemma alookup_other id id' cells A : id <> id' -> alookup id ((id', cells) :: A) = alookup id A.
+  Proof. intro H. simpl. apply Nat.eqb_neq in H. now rewrite H. Qed.
+
+  Lemma index_of_nil x : index_of x [] = None.
+  Proof. reflexivity. Qed.
+
+  Lemma owns_add st c x : owns st c -> let (st', c') := add_required st c x in owns st' c'.
+  Proof.
+    intros (Hn & Ha & Hc & Hl). unfold add_required.
+    destruct (index_of x (sread (ss_arrays st) c)); [repeat split; assumption|].
+    unfold sappend. destruct (Nat.ltb (g_len c) (g_cap c)) eqn:E; unfold owns; cbn [ss_arrays ss_next g_arr g_len g_cap].
+    - apply Nat.ltb_lt in E. destruct Hc as [Hc|[Hc1 Hc2]]; [lia|].
+      split; [exact Hn|]. split; [rewrite alookup_other by lia; exact Ha|]. split; [right; split; assumption|lia].
+    - apply Nat.ltb_ge in E.
+      split; [lia|]. split; [rewrite alookup_other by lia; exact Ha|]. split; [right; split; lia|lia].
+  Qed.
+
+  Lemma owns_remove st c x : owns st c -> let (st', c') := remove_required st c x in owns st' c'.
+  Proof.
+    intros (Hn & Ha & Hc & Hl). unfold remove_required.
+    destruct (index_of x (sread (ss_arrays st) c)) as [i|] eqn:Ei; [|repeat split; assumption].
+    unfold owns; cbn [ss_arrays ss_next g_arr g_len g_cap]. destruct Hc as [Hc|[Hc1 Hc2]].
+    - assert (H0 : g_len c = 0) by lia. unfold sread in Ei. rewrite H0 in Ei. simpl in Ei. discriminate Ei.
+    - split; [exact Hn|]. split; [rewrite alookup_other by lia; exact Ha|]. split; [right; split; assumption|lia].
+  Qed.
+
+  Lemma owns_run ops : forall st c, owns st c -> let (st', c') := run_rops ops st c in owns st' c'.
+  Proof.
+    induction ops as [|[x|x] ops IH]; intros st c H; simpl; [exact H| |].
+    - pose proof (owns_add st c x H) as H1. destruct (add_required st c x) as [st1 c1]. now apply IH.
+    - pose proof (owns_remove st c x H) as H1. destruct (remove_required st c x) as [st1 c1]. now apply IH.
+  Qed.
+
+  Lemma owns_dup : let (st, c) := required_dup (SS A0 next0) so in owns st c.
+  Proof.
+    unfold required_dup. destruct (g_len so) eqn:E; unfold owns; cbn [ss_arrays ss_next g_arr g_len g_cap].
+    - split; [lia|]. split; [reflexivity|]. split; [now left|lia].
+    - split; [lia|]. split; [apply alookup_other; lia|]. split; [right; lia|lia].
+  Qed.
+
+  Lemma required_dup_reads : let (st, c) := required_dup (SS A0 next0) so in sread (ss_arrays st) c = sread A0 so.
+  Proof.
+    unfold required_dup. destruct (g_len so) eqn:E; cbn [ss_arrays ss_next].
+    - unfold sread. cbn [g_len]. now rewrite E.
+    - unfold sread. cbn [g_arr g_len alookup]. rewrite Nat.eqb_refl, E, firstn_firstn. now rewrite Nat.min_id.
+  Qed.
+
+  (* whatever AddRequired / RemoveRequired do to the copy, the original reads what it read *)
+  Lemma required_independent ops :
+    let (st1, c) := required_dup (SS A0 next0) so in
+    let (st2, c') := run_rops ops st1 c in
+    sread (ss_arrays st2) so = sread A0 so.
+  Proof.
+    pose proof owns_dup as H. destruct (required_dup (SS A0 next0) so) as [st1 c].
+    pose proof (owns_run ops st1 c H) as H2. destruct (run_rops ops st1 c) as [st2 c'].
+    destruct H2 as (_ & Ha & _). unfold sread. now rewrite Ha.
+  Qed.
+End RequiredSlices.
+
+(* without the copy of the array (the slice header copied, as a struct copy of the
+   ValidationExpr would do) RemoveRequired through the alias changes what the original reads *)
+Lemma required_alias_leaks :
+  exists A s x, let (st, _) := remove_required (SS A 1) s x in sread (ss_arrays st) s <> sread A s.
+Proof.
+  exists [(0, [[97%N]; [98%N]])], (GS 0 2 2), [97%N]. vm_compute. discriminate.
+Qed.
